@@ -6,6 +6,7 @@ from .. import builderrules as B
 
 PROP = "C18"
 EXPLANATION = (
+    "(The name map is written only in the registration entries - who-may-write inventory - and with / with_batch are exactly add / add_batch.) "
     "Static structural obligations: (REJECT) in DispatcherBuilder::add the unknown-dependency panic is reached exactly from the None "
     "arm of map.get(name) and the duplicate-name panic exactly on an occupied entry under a non-empty name; both quote the name and "
     "precede placement; (EMPTY) empty names never touch the name map; (CAP) a group is joined only while its length is below K with "
